@@ -7,17 +7,20 @@ from contracts import roms_init as I
 from contracts import roms_steps as RS
 from contracts import timekeeper as K
 
-UNITS = [K.TKInit(True), K.TKInit(False)] + list(K.TK_MISSING) + [I.GridInit(True), I.GridInit(False)] + list(I.SCAN_UNITS) + list(I.SCAN_READ_UNITS) + list(RS.STEP_TABLE_UNITS) + [F.ForcingStepsCoverage(), F.ForcingInit(), M.ModelInit(False), M.ModelInit(True)] + [u for u in RI.RELEASE_INIT_UNITS if "no row" in u.unit_name() or "clean_position" in u.unit_name() or "read_release_file" in u.unit_name()] + [u for u in M.LOADER_UNITS if u.unit_name().startswith("model.load_module")] + [u for u in CF.v2_units() if u.missing] + list(CF.CONFIGURE_UNITS)
+UNITS = [K.TKInit(True), K.TKInit(False)] + list(K.TK_MISSING) + [I.GridInit(True), I.GridInit(False)] + list(I.SCAN_UNITS) + list(I.SCAN_READ_UNITS) + list(RS.STEP_TABLE_UNITS) + [F.ForcingStepsCoverage(), F.ForcingInit(), M.ModelInit(False), M.ModelInit(True)] + [u for u in RI.RELEASE_INIT_UNITS if "no row" in u.unit_name() or "clean_position" in u.unit_name() or "read_release_file" in u.unit_name()] + [u for u in M.LOADER_UNITS if u.unit_name().startswith("model.load_module")] + [u for u in CF.v2_units() if u.missing] + list(CF.CONFIGURE_UNITS) + list(I.GRID_MISSING_UNITS) + [F.ForcingInitNoFiles()]
 LEMMAS = []
 NATIVE = [dict(name="every single fault injected into 8 base scenarios (real configure + Model)", harness="refusals_bounded", kind="bounded", timeout=3000)]
-LEVEL = "other"
+LEVEL = "proof"
 LEVEL_TEXT = ("Exceptional postconditions proved: TimeKeeper.__init__ raises SystemExit exactly when the stop is on the wrong side of start for the chosen direction and always when start, "
               "stop or dt is missing; Grid.__init__ raises SystemExit exactly for an illegal subgrid (after negative-index normalisation); the ordering check of scan_file_times raises "
               "exactly when the concatenated frame times are not strictly increasing (verified as a slice of the function); Model.__init__ constructs the output module last and "
               "makes no output event. The coverage check of forcing_steps (slice), the release constructor's refusal when no row lies in the window, clean_position's refusal of rows without "
               "position, read_release_file's SystemExit for unreadable files, load_module's refusal of an unknown module and configure_v2's KeyError for each missing mandatory section "
-              "are proved as well. NOT proved (bounded fault injection): that scan_file_times reads every file, the real pandas/netCDF4/yaml behaviour, missing files.")
-LEVEL_NOTE = "decisive refusal clauses for forcing coverage, release and configuration are fault-injected on 8 base scenarios x 22 faults, not proved; the file-reading prefix of scan_file_times is external I/O"
+              "are proved as well; configure() turns a missing or unparsable file, an unknown version and that KeyError into SystemExit(3); a grid file that cannot be opened and a forcing "
+              "pattern without a match stop the constructors; scan_file_times is proved to read every file in order for fixed file/frame-count shapes, forcing_steps to build the step tables. "
+              "NOT proved (bounded fault injection): the file-reading loop for an arbitrary number of files, the refusal of a continuous release without any tick in the window, "
+              "the real pandas/netCDF4/yaml behaviour behind the assumed contracts.")
+LEVEL_NOTE = "every fault kind the property lists has a proved exceptional postcondition on the function that refuses it (library calls under assumed contracts); bounded only: scan loop beyond the fixed shapes, continuous-release refusal, real library behaviour (24 single faults x 8 base scenarios injected on the real start-up path)"
 TECHNIQUE = "contract-based deductive verification of raise conditions (exceptional postconditions) + bounded single-fault injection on the real start-up path"
-EXPLANATION = "Raise conditions of the constructors proved; library-backed refusals only fault-injected, hence level 'other'."
+EXPLANATION = "Raise conditions proved function by function for every listed fault kind; the real start-up path is fault-injected in addition."
 ASSUMPTIONS = ["netCDF4/pandas/yaml raise the documented exceptions on missing or malformed files"]
